@@ -1,148 +1,768 @@
 package verifsim
 
+// C15 — contract execution (embedded and WASM) is atomic, pays for itself and cannot
+// overspend. Monitor = twin blocks + receipts: every generated deploy/call/terminate is
+// evaluated as a single-tx block against its tx-free twin (both built by the real
+// ProposeBlock, both applied by the real validateBlock) and the five oracles of
+// DESIGN.md §C15 are applied to the two post-states and the receipt; the same transactions
+// also go into the real multi-replica chain so that contract state accumulates.
+
 import (
+	"bytes"
 	"fmt"
+	"math/big"
 	"os"
+	"strconv"
+	"strings"
+	"syscall"
 	"testing"
 	"time"
 
 	"github.com/idena-network/idena-go/blockchain/attachments"
 	"github.com/idena-network/idena-go/blockchain/types"
+	"github.com/idena-network/idena-go/blockchain/validation"
 	"github.com/idena-network/idena-go/common"
+	"github.com/idena-network/idena-go/config"
+	"github.com/idena-network/idena-go/core/state"
+	"github.com/idena-network/idena-go/crypto"
 	"github.com/idena-network/idena-go/verifutil"
-	"github.com/golang/protobuf/proto"
-	wasmmodels "github.com/idena-network/idena-wasm-binding/lib/protobuf"
 )
 
-func TestVerifC15Probe(t *testing.T) {
-	if !verifutil.Enabled() || os.Getenv("C15_PROBE") == "" {
-		t.Skip("probe")
+// the Rust WASM runtime only provides the `env.debug` import the bundled contracts need when
+// the node runs with IsDebug=true, and then prints every code blob to fd 1: send fd 1 to
+// /dev/null for this process (violations and panics go to stderr, results to the result file)
+func c15SilenceStdout() {
+	if os.Getenv("C15_KEEP_STDOUT") != "" {
+		return
 	}
-	rep := verifutil.NewReport()
-	defer rep.Write()
-	w := NewWorld(Options{Seed: 7, NNodes: 1, NIdent: 20, NAccounts: 5, AllValidated: true, FirstCeremonyIn: 24 * 400 * time.Hour})
-	twin := w.AddTwin()
-	if err := w.Prologue(); err != nil {
-		t.Fatal(err)
+	if f, err := os.OpenFile("/dev/null", os.O_WRONLY, 0); err == nil {
+		syscall.Dup2(int(f.Fd()), 1)
 	}
-	g := NewC15Gen(w, twin, verifutil.NewRng(1, 2))
-	for _, r := range w.Replicas {
-		r.Cfg.IsDebug = os.Getenv("C15_DEBUG") != ""
+}
+
+type c15Outcome struct {
+	Included bool
+	Success  bool
+	GasUsed  uint64
+	Err      string
+	Kind     string
+}
+
+type c15Ctx struct {
+	w    *World
+	twin *Replica
+	rep  *verifutil.Report
+	gen  *C15Gen
+	K    int
+	erc  map[common.Address]*big.Int // erc20 instance -> Σ balances recorded at deployment
+}
+
+func c15ErrClass(err error) string {
+	if err == nil {
+		return "ok"
 	}
-	if err := g.Fund(Dna(20000)); err != nil {
-		t.Fatal(err)
+	s := err.Error()
+	if i := strings.Index(s, ", filename"); i > 0 {
+		s = s[:i]
 	}
-	fmt.Println("network", w.View().AppState.ValidatorsCache.NetworkSize(), "feePerGas", w.View().AppState.State.FeePerGas())
-	owner := w.Accounts[0]
-	run := func(name string, tx *types.Transaction) *TwinResult {
-		t0 := time.Now()
-		tr, err := w.Twin(twin, tx, false)
-		d := time.Since(t0)
-		if err != nil || tr == nil || !tr.Included {
-			fmt.Printf("%s: err=%v tr=%+v\n", name, err, tr)
-			return nil
+	s = reHex.ReplaceAllString(s, "#")
+	if len(s) > 70 {
+		s = s[:70]
+	}
+	return s
+}
+
+func bigOrZero(v *big.Int) *big.Int {
+	if v == nil {
+		return new(big.Int)
+	}
+	return v
+}
+
+// revalidate B K-1 more times on fresh check states: every execution must accept and give
+// byte-identical receipts (oracle 5).
+func (x *c15Ctx) deterministic(b *types.Block, first types.TxReceipts, sig, what string, replay interface{}) bool {
+	ref, _ := first.ToBytes()
+	for i := 1; i < x.K; i++ {
+		x.twin.enter()
+		_, rc, err := x.twin.Chain.VerifValidateOnCheck(b)
+		x.rep.Count("reexecutions", 1)
+		if err != nil {
+			x.rep.Violation(sig, fmt.Sprintf("%s: re-execution %d of the same block on the same state is refused: %v (execution 0 accepted it)", what, i, err), replay)
+			return false
 		}
-		r := tr.Receipts[0]
-		st, _ := c15WalkAction(r.ActionResult)
-		if len(r.ActionResult) > 0 {
-			var ar wasmmodels.ActionResult
-			if proto.Unmarshal(r.ActionResult, &ar) == nil {
-				var pr func(a *wasmmodels.ActionResult, ind string)
-				pr = func(a *wasmmodels.ActionResult, ind string) {
-					ia := a.InputAction
-					if ia != nil {
-						fmt.Printf("%sACTION type=%d method=%q gaslimit=%d amount=%x ok=%v err=%q gasUsed=%d remaining=%d out=%q\n", ind, ia.ActionType, ia.Method, ia.GasLimit, ia.Amount, a.Success, a.Error, a.GasUsed, a.RemainingGas, verifutil.Trunc(string(a.OutputData), 40))
+		rb, _ := rc.ToBytes()
+		if !bytes.Equal(ref, rb) {
+			x.rep.Violation(sig, fmt.Sprintf("%s: re-execution %d of the same block on the same state produced different receipt bytes", what, i), replay)
+			return false
+		}
+	}
+	return true
+}
+
+func c15ReceiptView(rc *types.TxReceipt) map[string]interface{} {
+	var ev []string
+	for _, e := range rc.Events {
+		var as []string
+		for _, d := range e.Data {
+			as = append(as, fmt.Sprintf("%x", trunc(d, 20)))
+		}
+		ev = append(ev, e.EventName+"("+strings.Join(as, ",")+")")
+	}
+	return map[string]interface{}{"success": rc.Success, "gasUsed": rc.GasUsed, "gasCost": bigOrZero(rc.GasCost).String(), "error": fmt.Sprint(rc.Error), "method": rc.Method,
+		"contract": rc.ContractAddress.Hex(), "events": ev}
+}
+
+// Eval = one contract transaction as a twin pair, all oracles.
+func (x *c15Ctx) Eval(a *C15Action) (out c15Outcome) {
+	w, twin, rep := x.w, x.twin, x.rep
+	tx := a.Tx
+	sender := a.From.Addr
+	pre := twin.AppState // canonical head state the twin blocks are applied on
+	// contract type from the PRE-state (authoritative), the generator's belief only for deployments
+	kind := a.Kind
+	if tx.To != nil && tx.Type != types.DeployContractTx {
+		kind = c15Versioned(c15KindOfHash(pre.State.GetCodeHash(*tx.To)), w.Cons.EnableUpgrade10)
+	} else if tx.Type == types.DeployContractTx {
+		if att := attachments.ParseDeployContractAttachment(tx); att != nil && len(att.Code) > 0 {
+			h := common.Hash(crypto.Hash(att.Code))
+			kind = c15KindOfHash(&h)
+		}
+	}
+	out.Kind = kind
+	tag := kind + ":" + a.Method
+	replay := map[string]interface{}{"tx": a.Describe(), "head": twin.Head().Height(), "scenario_seed": w.Opt.Seed, "step": x.gen.Step}
+	tr, err := w.Twin(twin, tx, true)
+	if tr == nil {
+		rep.Count("twin_unusable", 1)
+		return
+	}
+	rep.Count("twins_attempted", 1)
+	if err != nil {
+		if tr.Included {
+			rep.Violation("nondeterministic:"+tag, fmt.Sprintf("the block ProposeBlock built around %s is refused by validateBlock on the same state: %v", a.Describe(), err), replay)
+		}
+		return
+	}
+	if !tr.Included {
+		rep.Count("not_included", 1)
+		rep.Count("not_included:"+a.Shape, 1)
+		return
+	}
+	out.Included = true
+	rep.Eval(1)
+	if len(tr.Receipts) != 1 {
+		rep.Violation("receipt-count:"+tag, fmt.Sprintf("block with one contract tx produced %d receipts (%s)", len(tr.Receipts), a.Describe()), replay)
+		return
+	}
+	rc := tr.Receipts[0]
+	out.Success, out.GasUsed, out.Err = rc.Success, rc.GasUsed, c15ErrClass(rc.Error)
+	replay["receipt"] = c15ReceiptView(rc)
+	outcome := "fail"
+	if rc.Success {
+		outcome = "ok"
+	}
+	rep.Count("twins", 1)
+	rep.Count(kind+"."+a.Method+":"+outcome, 1)
+	rep.Count("kind:"+kind+":"+outcome, 1)
+	if !rc.Success {
+		rep.Count("err:"+kind+"."+a.Method+":"+out.Err, 1)
+	}
+	rep.Count("shape:"+a.Shape, 1)
+	rep.Count("gas:"+a.GasClass+":"+outcome, 1)
+	if tr.Forced {
+		rep.Count("twins_forced_past_pool", 1)
+	}
+	point := ""
+	if a.GasClass == "sweep" || strings.Contains(out.Err, "gas") {
+		point = fmt.Sprintf("gas%d", rc.GasUsed/50)
+	}
+	rep.Distinct(kind, a.TxKind, a.Method, outcome, out.Err, point)
+
+	// ---- (5) determinism
+	x.deterministic(tr.B1, tr.Receipts, "nondeterministic:"+tag, "single "+a.Describe(), replay)
+
+	// ---- state contents of both twins
+	s0, s1 := C15StateKV(tr.Post0), C15StateKV(tr.Post1)
+	diff := c15DiffKeys(s0, s1)
+	coinbase := tr.B1.Header.Coinbase()
+	keySender := string(state.StateDbKeys.AddressKey(sender))
+	keyCbAcc := string(state.StateDbKeys.AddressKey(coinbase))
+	keyCbId := string(state.StateDbKeys.IdentityKey(coinbase))
+	keyGlobal := string(state.StateDbKeys.GlobalKey())
+	var diffDesc []string
+	for _, k := range diff {
+		diffDesc = append(diffDesc, c15DescribeKey(k))
+	}
+	replay["state_diff_keys"] = diffDesc
+
+	// ---- (1) failure leaves no trace
+	if !rc.Success {
+		if pre.ValidatorsCache.IsPool(coinbase) {
+			rep.Count("oracle1_skipped_pool_proposer", 1)
+		} else {
+			for _, k := range diff {
+				switch k {
+				case keyCbAcc, keyCbId:
+					continue
+				case keySender:
+					var a0, a1 state.Account
+					a0.FromBytes(s0[k])
+					a1.FromBytes(s1[k])
+					if (a0.Contract == nil) != (a1.Contract == nil) {
+						rep.Violation("failure-left-trace:"+tag, fmt.Sprintf("failed %s changed the contract part of the sender's account", a.Describe()), replay)
 					}
-					for _, s := range a.SubActionResults {
-						pr(s, ind+"   ")
+					continue
+				case keyGlobal:
+					if bytes.Equal(c15GlobalSansFee(s0[k]), c15GlobalSansFee(s1[k])) {
+						continue
 					}
 				}
-				pr(&ar, "  ")
+				rep.Violation("failure-left-trace:"+tag, fmt.Sprintf("receipt says failure (%v) but the block with the tx differs from the block without it in %s: without=%x with=%x; tx: %s",
+					rc.Error, c15DescribeKey(k), trunc(s0[k], 48), trunc(s1[k], 48), a.Describe()), replay)
+				break
+			}
+			if tr.Post0.IdentityState.Root() != tr.Post1.IdentityState.Root() {
+				rep.Violation("failure-left-trace:"+tag, fmt.Sprintf("failed %s changed the identity-state tree", a.Describe()), replay)
 			}
 		}
-		fmt.Printf("%s: success=%v gasUsed=%d gasCost=%v err=%v events=%d sub=%+v time=%v addr=%x\n", name, r.Success, r.GasUsed, r.GasCost, r.Error, len(r.Events), st, d, r.ContractAddress[:4])
-		return tr
+		if n := tr.Post1.State.GetNonce(sender); n != tx.AccountNonce {
+			rep.Violation("failure-nonce:"+tag, fmt.Sprintf("failed %s: sender nonce %d after the block, tx nonce %d", a.Describe(), n, tx.AccountNonce), replay)
+		}
+		rep.Count("oracle1_failures_checked", 1)
 	}
-	commit := func(tx *types.Transaction) {
-		if err := w.Submit(tx); err != nil {
-			fmt.Println("submit refused:", err)
+
+	// ---- (2) fee bound
+	b0, b1 := tr.Post0.State.GetBalance(sender), tr.Post1.State.GetBalance(sender)
+	dec := new(big.Int).Sub(b0, b1)
+	moved := new(big.Int)
+	if rc.Success {
+		moved = tx.AmountOrZero()
+	}
+	charged := new(big.Int).Sub(dec, moved)
+	bound := new(big.Int).Add(tx.MaxFeeOrZero(), tx.TipsOrZero())
+	if charged.Cmp(bound) > 0 {
+		rep.Violation("fee-bound:sender-charged-over-maxfee:"+tag, fmt.Sprintf("sender balance %v -> %v (decrease %v), moved to contract %v: charged %v > MaxFee %v + tips %v; %s",
+			b0, b1, dec, moved, charged, tx.MaxFeeOrZero(), tx.TipsOrZero(), a.Describe()), replay)
+	}
+	txFee := c15TxFee(pre, tx)
+	if cost := new(big.Int).Add(bigOrZero(rc.GasCost), txFee); cost.Cmp(tx.MaxFeeOrZero()) > 0 {
+		rep.Violation("fee-bound:gascost-over-maxfee:"+tag, fmt.Sprintf("gas cost %v + tx fee %v = %v > MaxFee %v; %s", rc.GasCost, txFee, cost, tx.MaxFeeOrZero(), a.Describe()), replay)
+	}
+	// protocol rule: gasLimit = (MaxFee - txFee) / feePerGas (0 when the rate is 0)
+	fpg := pre.State.FeePerGas()
+	limit := new(big.Int)
+	if fpg != nil && fpg.Sign() > 0 {
+		limit.Quo(new(big.Int).Sub(tx.MaxFeeOrZero(), txFee), fpg)
+	}
+	if limit.Sign() < 0 || new(big.Int).SetUint64(rc.GasUsed).Cmp(limit) > 0 {
+		rep.Violation("fee-bound:gasused-over-limit:"+tag, fmt.Sprintf("GasUsed %d > gas limit %v bought by MaxFee %v (tx fee %v, feePerGas %v); %s", rc.GasUsed, limit, tx.MaxFeeOrZero(), txFee, fpg, a.Describe()), replay)
+	}
+
+	// ---- (3) conservation, nothing below zero
+	l0, l1 := LedgerOf(tr.Post0), LedgerOf(tr.Post1)
+	if l1.Total.Cmp(l0.Total) > 0 {
+		rep.Violation("conservation:"+tag, fmt.Sprintf("Σ(balance+stake+contract stake) with the tx %v > without it %v (+%v); %s", l1.Total, l0.Total, new(big.Int).Sub(l1.Total, l0.Total), a.Describe()),
+			map[string]interface{}{"case": replay, "diff": LedgerDiff(l0, l1)})
+	}
+	if l1.Total.Cmp(l0.Total) < 0 {
+		rep.Count("twins_with_burn", 1)
+	}
+	addrs := map[common.Address]bool{sender: true, rc.ContractAddress: true}
+	if tx.To != nil {
+		addrs[*tx.To] = true
+	}
+	for _, k := range diff {
+		if c := KeyClass([]byte(k)); (c == "account" || c == "identity") && len(k) == 21 {
+			addrs[c15AddrOf([]byte(k)[1:])] = true
 		}
-		w.Tick(20 * time.Second)
-		res := w.NextBlock(0)
-		for n, e := range res.Errs {
-			t.Fatalf("block refused by %s: %v", n, e)
+	}
+	for ad := range addrs {
+		st := tr.Post1.State
+		if st.GetBalance(ad).Sign() < 0 || bigOrZero(st.GetContractStake(ad)).Sign() < 0 || st.GetStakeBalance(ad).Sign() < 0 {
+			rep.Violation("negative:"+tag, fmt.Sprintf("%x ends with balance %v contract stake %v stake %v after %s", ad[:4], st.GetBalance(ad), st.GetContractStake(ad), st.GetStakeBalance(ad), a.Describe()), replay)
 		}
-		rc := w.View().Chain.GetReceipt(tx.Hash())
-		if rc == nil {
-			fmt.Println("  not in chain")
+	}
+
+	// ---- (4) success applies everything (mini-models of the simple contracts)
+	if rc.Success {
+		x.checkSuccess(a, kind, tr, rc, s0, s1, l0, l1, coinbase, replay)
+	}
+	// failed sub-deployments inside a WASM execution must not leave the sub-contract behind
+	if subs, ok := c15WalkAction(rc.ActionResult); ok {
+		for _, s := range subs {
+			switch s.Type {
+			case 1:
+				rep.Count("wasm_subcall_seen", 1)
+				if s.OK {
+					rep.Count("wasm_subcall_ok", 1)
+				}
+			case 3:
+				rep.Count("wasm_subdeploy_seen", 1)
+				if s.OK {
+					rep.Count("wasm_subdeploy_ok", 1)
+				}
+				if (!s.OK || !rc.Success) && tr.Post0.State.GetCodeHash(s.Contract) == nil && tr.Post1.State.GetCodeHash(s.Contract) != nil {
+					rep.Violation("failure-left-trace:"+kind+":sub-deploy", fmt.Sprintf("sub-deployment of %x failed (%s) but the contract exists afterwards; %s", s.Contract[:4], s.Err, a.Describe()), replay)
+				}
+			}
+		}
+	}
+	if rep.Get("samples_taken:"+tag+":"+outcome) == 0 && rep.Get("samples_total") < 60 {
+		rep.Count("samples_taken:"+tag+":"+outcome, 1)
+		rep.Count("samples_total", 1)
+		rep.Sample(map[string]interface{}{"tx": a.Describe(), "receipt": c15ReceiptView(rc), "state_keys_differing_with_vs_without": diffDesc, "ledger_diff": LedgerDiff(l0, l1)})
+	}
+	return
+}
+
+func delta(l0, l1 *Ledger, a common.Address) *big.Int {
+	v0, v1 := new(big.Int), new(big.Int)
+	if e := l0.ByAddr[a]; e != nil {
+		v0 = e.Balance
+	}
+	if e := l1.ByAddr[a]; e != nil {
+		v1 = e.Balance
+	}
+	return new(big.Int).Sub(v1, v0)
+}
+
+func (x *c15Ctx) checkSuccess(a *C15Action, kind string, tr *TwinResult, rc *types.TxReceipt, s0, s1 map[string][]byte, l0, l1 *Ledger, coinbase common.Address, replay interface{}) {
+	rep := x.rep
+	tx := a.Tx
+	sender := a.From.Addr
+	tag := kind + ":" + a.Method
+	post := tr.Post1.State
+	bad := func(what, format string, args ...interface{}) {
+		rep.Violation("success-not-applied:"+tag+":"+what, fmt.Sprintf(format, args...)+"; "+a.Describe(), replay)
+	}
+	special := func(ad common.Address) bool { return ad == sender || ad == coinbase }
+	storeKey := func(c common.Address, key []byte) []byte { return s1[string(state.StateDbKeys.ContractStoreKey(c, key))] }
+	rep.Count("oracle4_success_checked", 1)
+	switch tx.Type {
+	case types.DeployContractTx:
+		att := attachments.ParseDeployContractAttachment(tx)
+		addr := rc.ContractAddress
+		h := post.GetCodeHash(addr)
+		if h == nil {
+			bad("no-code", "successful deployment left no contract at %x", addr[:4])
+			return
+		}
+		if len(att.Code) == 0 {
+			if *h != att.CodeHash {
+				bad("code-hash", "deployed code hash %x, requested %x", h[:4], att.CodeHash[:4])
+			}
+			if st := post.GetContractStake(addr); st == nil || st.Cmp(tx.AmountOrZero()) != 0 {
+				bad("stake", "contract stake %v, tx amount %v", st, tx.AmountOrZero())
+			}
+			if string(storeKey(addr, []byte("owner"))) != string(sender.Bytes()) {
+				bad("owner", "owner key %x, sender %x", storeKey(addr, []byte("owner")), sender[:4])
+			}
 		} else {
-			fmt.Printf("  chain: success=%v gas=%d err=%v\n", rc.Success, rc.GasUsed, rc.Error)
+			if *h != common.Hash(crypto.Hash(att.Code)) || !bytes.Equal(post.GetContractCode(addr), att.Code) {
+				bad("code", "stored code differs from the deployed code")
+			}
+			if c15IsWasmKind(kind) && kind != "wasm:other" && !special(addr) {
+				if d := delta(l0, l1, addr); d.Cmp(tx.AmountOrZero()) != 0 {
+					bad("pay-amount", "contract balance changed by %v, pay amount %v", d, tx.AmountOrZero())
+				}
+			}
+			if kind == kErc20 {
+				x.erc[addr] = c15ErcSum(s1, addr)
+			}
 		}
-	}
-	addrs := map[string]common.Address{}
-	for _, kind := range c15WasmKinds {
-		var args [][]byte
+	case types.TerminateContractTx:
+		addr := *tx.To
+		if post.GetCodeHash(addr) != nil {
+			bad("still-there", "contract %x still exists after a successful termination", addr[:4])
+		}
+		base := strings.TrimRight(kind, "12")
+		pfx := string(state.StateDbKeys.ContractStoreKey(addr, nil))
+		left := 0
+		for k := range s1 {
+			if strings.HasPrefix(k, pfx) {
+				left++
+			}
+		}
+		if base != kOV && left > 0 || left > 3 {
+			bad("store-left", "%d contract store keys of %x survive the termination", left, addr[:4])
+		}
+		// half of the stake goes to the stake destination
+		stake := bigOrZero(tr.Post0.State.GetContractStake(addr))
+		var dest common.Address
+		switch base {
+		case kTimeLock, kMultisig, kROL:
+			if len(a.Args) > 0 {
+				dest = c15AddrOf(a.Args[0])
+			}
+		default:
+			dest = c15AddrOf(s0[string(state.StateDbKeys.ContractStoreKey(addr, []byte("owner")))])
+		}
+		if !special(dest) && dest != addr {
+			if d := delta(l0, l1, dest); d.Cmp(new(big.Int).Quo(stake, big.NewInt(2))) < 0 {
+				bad("stake-refund", "stake %v, destination %x got %v", stake, dest[:4], d)
+			}
+		}
+	case types.CallContractTx:
+		addr := *tx.To
+		att := attachments.ParseCallContractAttachment(tx)
+		args := att.Args
+		arg := func(i int) []byte {
+			if i < len(args) {
+				return args[i]
+			}
+			return nil
+		}
 		switch kind {
-		case kSum:
-			a := addrs[kInc]
-			args = [][]byte{a.Bytes()}
-		case kSft:
-			args = [][]byte{owner.Addr.Bytes(), common.Address{0xA}.Bytes()}
+		case kTimeLock:
+			if att.Method == "transfer" {
+				dest, amt := c15AddrOf(arg(0)), new(big.Int).SetBytes(arg(1))
+				if dest != addr && !special(addr) {
+					want := new(big.Int).Sub(tx.AmountOrZero(), amt)
+					if d := delta(l0, l1, addr); d.Cmp(want) != 0 {
+						bad("contract-balance", "TimeLock balance changed by %v, expected pay amount %v - transfer %v", d, tx.AmountOrZero(), amt)
+					}
+				}
+				if dest != addr && !special(dest) {
+					if d := delta(l0, l1, dest); d.Cmp(amt) != 0 {
+						bad("dest-balance", "destination %x received %v, transfer amount %v", dest[:4], d, amt)
+					}
+				}
+			}
+		case kMultisig:
+			switch att.Method {
+			case "add":
+				v := c15AddrOf(arg(0))
+				if !bytes.Equal(storeKey(addr, append([]byte("addr"), v.Bytes()...)), v.Bytes()) {
+					bad("voter", "voter %x not stored after add", v[:4])
+				}
+			case "send":
+				dest := c15AddrOf(arg(0))
+				if !bytes.Equal(storeKey(addr, append([]byte("addr"), sender.Bytes()...)), dest.Bytes()) ||
+					!bytes.Equal(storeKey(addr, append([]byte("amount"), sender.Bytes()...)), arg(1)) {
+					bad("vote", "vote of %x not stored as sent (dest %x amount %x)", sender[:4], dest[:4], arg(1))
+				}
+			case "push":
+				dest, amt := c15AddrOf(arg(0)), new(big.Int).SetBytes(arg(1))
+				if dest != addr && !special(addr) {
+					want := new(big.Int).Sub(tx.AmountOrZero(), amt)
+					if d := delta(l0, l1, addr); d.Cmp(want) != 0 {
+						bad("contract-balance", "Multisig balance changed by %v, expected pay amount %v - push %v", d, tx.AmountOrZero(), amt)
+					}
+				}
+				if dest != addr && !special(dest) {
+					if d := delta(l0, l1, dest); d.Cmp(amt) != 0 {
+						bad("dest-balance", "destination %x received %v, pushed amount %v", dest[:4], d, amt)
+					}
+				}
+				pfx := string(state.StateDbKeys.ContractStoreKey(addr, []byte("amount")))
+				for k, v := range s1 {
+					if strings.HasPrefix(k, pfx) && new(big.Int).SetBytes(v).Sign() != 0 {
+						bad("votes-reset", "vote amount %x not reset after push", v)
+					}
+				}
+			}
+		case kErc20:
+			if sup, ok := x.erc[addr]; ok {
+				if now := c15ErcSum(s1, addr); now.Cmp(sup) != 0 {
+					bad("supply", "Σ token balances %v after the call, %v at deployment", now, sup)
+				}
+			}
+			if att.Method == "transfer" && len(arg(0)) == 20 {
+				to, amt := c15AddrOf(arg(0)), new(big.Int).SetBytes(arg(1))
+				if to != sender {
+					f0, f1 := c15ErcBal(s0, addr, sender), c15ErcBal(s1, addr, sender)
+					t0, t1 := c15ErcBal(s0, addr, to), c15ErcBal(s1, addr, to)
+					if new(big.Int).Sub(f0, f1).Cmp(amt) != 0 || new(big.Int).Sub(t1, t0).Cmp(amt) != 0 {
+						bad("token-move", "transfer of %v: sender tokens %v->%v, recipient %v->%v", amt, f0, f1, t0, t1)
+					}
+				}
+			}
+			fallthrough
+		case kInc:
+			if !special(addr) {
+				if d := delta(l0, l1, addr); d.Cmp(tx.AmountOrZero()) != 0 {
+					bad("pay-amount", "contract balance changed by %v, pay amount %v", d, tx.AmountOrZero())
+				}
+			}
 		}
-		att := attachments.CreateDeployContractAttachment(common.Hash{}, c15WasmCode[kind], []byte{1}, args...)
-		pl, _ := att.ToBytes()
-		tx := g.signed(owner, types.DeployContractTx, nil, Dna(0), pl, "max", true, nil)
-		tr := run("deploy "+kind, tx)
-		if tr != nil {
-			addrs[kind] = tr.Receipts[0].ContractAddress
-			commit(tx)
+	}
+}
+
+func c15ErcSum(s map[string][]byte, c common.Address) *big.Int {
+	pfx := string(state.StateDbKeys.ContractStoreKey(c, []byte("b:")))
+	sum := new(big.Int)
+	for k, v := range s {
+		if strings.HasPrefix(k, pfx) {
+			sum.Add(sum, new(big.Int).SetBytes(v))
 		}
 	}
-	call := func(kind, method string, amount int64, args ...[]byte) {
-		att := attachments.CreateCallContractAttachment(method, args...)
-		pl, _ := att.ToBytes()
-		a := addrs[kind]
-		tx := g.signed(owner, types.CallContractTx, &a, Dna(amount), pl, "max", true, nil)
-		if run("call "+kind+"."+method, tx) != nil {
-			commit(tx)
+	return sum
+}
+
+func c15ErcBal(s map[string][]byte, c, who common.Address) *big.Int {
+	return new(big.Int).SetBytes(s[string(state.StateDbKeys.ContractStoreKey(c, append([]byte("b:"), who.Bytes()...)))])
+}
+
+// EvalMulti evaluates a designated several-transactions-in-one-block class on the observer:
+// one proposed block carrying them all, K executions. Returns whether it is safe to put the
+// same transactions into one block of the real chain.
+func (x *c15Ctx) EvalMulti(m *C15Multi) (safe bool) {
+	w, t, rep := x.w, x.twin, x.rep
+	t.enter()
+	if !t.CanPropose() {
+		return false
+	}
+	var desc []string
+	for _, a := range m.Acts {
+		desc = append(desc, a.Describe())
+	}
+	replay := map[string]interface{}{"class": m.Class, "txs": desc, "head": t.Head().Height(), "scenario_seed": w.Opt.Seed, "step": x.gen.Step}
+	clear := func() {
+		for _, old := range t.TxPool.VerifAll() {
+			t.TxPool.Remove(old)
 		}
 	}
-	dst := w.Accounts[1].Addr
-	dump := func(a common.Address) {
-		st := w.View().AppState.State
-		fmt.Printf("  %x balance=%v\n", a[:4], st.GetBalance(a))
-		st.IterateContractStore(a, nil, nil, func(key, value []byte) bool {
-			fmt.Printf("    %q = %q\n", string(key), verifutil.Trunc(string(value), 200))
-			return false
-		})
+	clear()
+	b0 := t.Chain.ProposeBlock(nil).Block
+	for _, a := range m.Acts {
+		if err := t.TxPool.AddExternalTxs(validation.InboundTx, a.Tx); err != nil {
+			if e2 := t.TxPool.VerifForcePut(a.Tx); e2 != nil {
+				rep.Note("multi %s: pool refused %s: %v / %v", m.Class, a.Describe(), err, e2)
+			}
+		}
 	}
-	{
-		att := attachments.CreateDeployContractAttachment(common.Hash{}, c15WasmCode[kSft], []byte{2}, owner.Addr.Bytes(), owner.Addr.Bytes())
-		pl, _ := att.ToBytes()
-		tx := g.signed(owner, types.DeployContractTx, nil, Dna(3), pl, "max", true, nil)
-		tr := run("deploy sft(owner,owner)", tx)
-		commit(tx)
-		addrs["sft2"] = tr.Receipts[0].ContractAddress
-		dump(addrs["sft2"])
-		dump(addrs[kSft])
+	b := t.Chain.ProposeBlock(nil).Block
+	clear()
+	rep.Count("multi_attempted:"+m.Class, 1)
+	if len(b.Body.Transactions) < 2 {
+		return false
 	}
-	call("sft2", "getBalance", 0)
-	call("sft2", "_addBalance", 0, common.Big1.Bytes())
-	call("sft2", "_addBalance", 0, []byte("1000"))
-	dump(addrs["sft2"])
-	call("sft2", "transferTo", 0, dst.Bytes(), common.Big1.Bytes())
-	call("sft2", "transferTo", 0, dst.Bytes(), []byte("1"))
-	dump(addrs["sft2"])
-	call(kSft, "receive", 0, common.Big1.Bytes(), owner.Addr.Bytes())
-	call(kCases, "test", 900, common.ToBytes(uint32(1)), c15WasmCode[kInc])
-	_ = dst
-	for k, a := range addrs {
-		st := w.View().AppState.State
-		fmt.Printf("%s %x balance=%v stake=%v\n", k, a[:4], st.GetBalance(a), st.GetContractStake(a))
-		st.IterateContractStore(a, nil, nil, func(key, value []byte) bool {
-			fmt.Printf("    %q = %x\n", string(key), verifutil.Trunc(string(value), 60))
-			return false
-		})
+	post0, _, e0 := t.Chain.VerifValidateOnCheck(b0)
+	if e0 != nil {
+		return false
 	}
-	w.Cleanup()
+	sig := "nondeterministic:" + m.Class
+	what := fmt.Sprintf("block with %d txs of class %s", len(b.Body.Transactions), m.Class)
+	rep.Eval(1)
+	post, rcs, err := t.Chain.VerifValidateOnCheck(b)
+	if err != nil {
+		rep.Violation(sig, fmt.Sprintf("%s: the block ProposeBlock built is refused by validateBlock on the same state: %v", what, err), replay)
+		x.classSeen(m, b, nil)
+		return false
+	}
+	var views []interface{}
+	for _, rc := range rcs {
+		views = append(views, c15ReceiptView(rc))
+	}
+	replay["receipts"] = views
+	x.classSeen(m, b, rcs)
+	k := x.K
+	x.K = 3 * k // a class that is unsafe must practically never slip into the real chain
+	safe = x.deterministic(b, rcs, sig, what, replay)
+	x.K = k
+	l0, l1 := LedgerOf(post0), LedgerOf(post)
+	if l1.Total.Cmp(l0.Total) > 0 {
+		rep.Violation("conservation:"+m.Class, fmt.Sprintf("%s: Σ with the txs %v > without %v", what, l1.Total, l0.Total), map[string]interface{}{"case": replay, "diff": LedgerDiff(l0, l1)})
+	}
+	for ad, e := range l1.ByAddr {
+		if post.State.GetBalance(ad).Sign() < 0 || e.ContractStake.Sign() < 0 {
+			rep.Violation("negative:"+m.Class, fmt.Sprintf("%s: %x ends with balance %v", what, ad[:4], post.State.GetBalance(ad)), replay)
+		}
+	}
+	if rep.Get("samples_multi:"+m.Class) < 2 {
+		rep.Count("samples_multi:"+m.Class, 1)
+		rep.Sample(map[string]interface{}{"class": m.Class, "txs": desc, "receipts": views, "deterministic_over_K": safe, "K": x.K})
+	}
+	return safe
+}
+
+// classSeen counts the class as exercised when the final tx (finishVoting / refund) of the
+// block succeeded after >= 2 successful txs of the same contract in the SAME block (with
+// rcs == nil: the block was refused, count by the txs that were included).
+func (x *c15Ctx) classSeen(m *C15Multi, b *types.Block, rcs types.TxReceipts) {
+	n := len(b.Body.Transactions)
+	last := m.Acts[len(m.Acts)-1].Tx.Hash()
+	if b.Body.Transactions[n-1].Hash() != last || n < 3 {
+		return
+	}
+	if rcs != nil {
+		ok := 0
+		for _, rc := range rcs[:len(rcs)-1] {
+			if rc.Success {
+				ok++
+			}
+		}
+		if !rcs[len(rcs)-1].Success || ok < 2 {
+			x.rep.Count("multi_final_failed:"+m.Class, 1)
+			return
+		}
+	}
+	x.rep.Count("sameblock_class_seen:"+m.Class, 1)
+	x.rep.Distinct("multi", m.Class, n)
+}
+
+func c15Opts(seed uint64, mode string, sc int) (Options, []string) {
+	o := Options{Seed: seed, NNodes: 1, NIdent: 18 + int(seed%7), NAccounts: 6, AllValidated: true, GodIsIdentity: sc%2 == 1,
+		FirstCeremonyIn: 24 * 600 * time.Hour, StartTime: time.Date(2023, 8, 7+int(seed%5), 6+int(seed%11), 0, 0, 0, time.UTC)}
+	kinds := append(append([]string{}, c15EmbeddedKinds...), c15WasmKinds...)
+	switch mode {
+	case "v9":
+		o.Version = config.ConsensusV9
+		kinds = c15EmbeddedKinds
+	case "v10":
+		o.Version = config.ConsensusV10
+		kinds = c15EmbeddedKinds
+	case "v11":
+		o.Version = config.ConsensusV11
+	case "wasm":
+		kinds = c15WasmKinds
+	case "embedded":
+		kinds = c15EmbeddedKinds
+	}
+	return o, kinds
+}
+
+func TestVerifC15(t *testing.T) {
+	if !verifutil.Enabled() {
+		t.Skip("verif harness")
+	}
+	c15SilenceStdout()
+	rep := verifutil.NewReport()
+	defer rep.Write()
+	nScen := verifutil.Scale(1, 3)
+	steps := verifutil.Scale(130, 260)
+	if v, err := strconv.Atoi(os.Getenv("C15_STEPS")); err == nil {
+		steps = v
+	}
+	K := verifutil.Scale(4, 6)
+	for sc := 0; sc < nScen; sc++ {
+		seed := scenSeed(sc) + 15000
+		mode := []string{"v12", "v12", "v12", "v9", "v12", "wasm", "v12", "embedded"}[(verifutil.Shard()+sc*3)%8]
+		if verifutil.Thorough() && (verifutil.Shard()+sc)%8 == 6 {
+			mode = []string{"v10", "v11"}[sc%2]
+		}
+		if s := os.Getenv("C15_SLICE"); s != "" {
+			mode = s
+		}
+		o, kinds := c15Opts(seed, mode, sc)
+		w := NewWorld(o)
+		twin := w.AddTwin()
+		for _, r := range w.Replicas {
+			r.Cfg.IsDebug = true
+		}
+		if err := w.Prologue(); err != nil {
+			t.Fatal(err)
+		}
+		gen := NewC15Gen(w, twin, verifutil.NewRng(seed, 15), kinds)
+		if err := gen.Fund(Dna(26000)); err != nil {
+			t.Fatal(err)
+		}
+		x := &c15Ctx{w: w, twin: twin, rep: rep, gen: gen, K: K, erc: map[common.Address]*big.Int{}}
+		rep.Count("scenarios:"+mode, 1)
+		rng := verifutil.NewRng(seed, 1515)
+		jumpAt := steps * 6 / 10
+		for i := 0; i < steps; i++ {
+			rep.Progress("C15 scenario %d seed %d mode %s step %d", sc, seed, mode, i)
+			if i == jumpAt {
+				gen.JumpClock(time.Duration(31*24+rng.Range(0, 48)) * time.Hour)
+				rep.Count("clock_jumps_31d", 1)
+			}
+			acts, multis := gen.NextBatch()
+			var multiClass string
+			for _, a := range acts {
+				out := x.Eval(a)
+				if out.Included && out.Success && out.GasUsed > 1 && rng.Intn(100) < 45 {
+					// failure-point sweep: the same call with a budget that ends inside the execution
+					sw := gen.WithGas(a, int64(rng.Intn(int(out.GasUsed))))
+					so := x.Eval(sw)
+					if so.Included {
+						rep.Count("gas_sweeps", 1)
+						if so.Success {
+							rep.Count("gas_sweeps_still_ok", 1)
+						}
+					}
+				}
+				if a.Submit && out.Included {
+					w.Submit(a.Tx)
+					rep.Count("submitted_to_chain", 1)
+				}
+			}
+			for _, m := range multis {
+				if x.EvalMulti(m) {
+					for _, a := range m.Acts {
+						w.Submit(a.Tx)
+					}
+					multiClass = m.Class
+					rep.Count("multi_in_real_chain:"+m.Class, 1)
+				} else {
+					// not safe in one block of the real chain: the final tx goes one block later,
+					// re-issued by the generator's life-cycle logic
+					for _, a := range m.Acts[:len(m.Acts)-1] {
+						w.Submit(a.Tx)
+					}
+				}
+			}
+			w.Tick(time.Duration(rng.Range(10, 40)) * time.Second)
+			w.beforeDistribute = func(b *types.Block, p *Replica) {
+				n := 0
+				for _, tx := range b.Body.Transactions {
+					if tx.Type == types.DeployContractTx || tx.Type == types.CallContractTx || tx.Type == types.TerminateContractTx {
+						n++
+					}
+				}
+				if n == 0 {
+					return
+				}
+				rep.Count("chain_contract_blocks", 1)
+				rep.Count("chain_contract_txs", n)
+				sig := "nondeterministic:chain-block"
+				if multiClass != "" {
+					sig = "nondeterministic:" + multiClass
+				}
+				var first []byte
+				for k := 0; k < K; k++ {
+					p.enter()
+					_, rcs, err := p.Chain.VerifValidateOnCheck(b)
+					rep.Count("reexecutions", 1)
+					if err != nil {
+						rep.Violation(sig, fmt.Sprintf("chain block %d (%d contract txs) built by %s: re-execution %d on the proposer's own state is refused: %v", b.Height(), n, p.Name, k, err), DescribeBlock(b))
+						return
+					}
+					rb, _ := rcs.ToBytes()
+					if k == 0 {
+						first = rb
+						for _, rc := range rcs {
+							if rc.Success {
+								rep.Count("chain_contract_txs_ok", 1)
+							}
+						}
+					} else if !bytes.Equal(first, rb) {
+						rep.Violation(sig, fmt.Sprintf("chain block %d built by %s: re-execution %d produced different receipts", b.Height(), p.Name, k), DescribeBlock(b))
+						return
+					}
+				}
+			}
+			res := w.NextBlock(0)
+			w.beforeDistribute = nil
+			if len(res.Errs) > 0 {
+				for n, e := range res.Errs {
+					sig := "chain-block-refused:" + ErrClass(e)
+					if multiClass != "" {
+						sig = "nondeterministic:" + multiClass
+					}
+					rep.Violation(sig, fmt.Sprintf("scenario %d step %d: block %d with contract txs built by the proposer is refused by %s: %v", sc, i, res.Block.Height(), n, e), DescribeBlock(res.Block))
+				}
+				break
+			}
+			rep.Count("chain_blocks", 1)
+		}
+		// which types were deployed in the canonical chain
+		for _, c := range gen.Contracts {
+			if c.Deployed {
+				rep.Count("chain_deployed:"+c15Versioned(c.Kind, w.Cons.EnableUpgrade10), 1)
+			}
+		}
+		w.Cleanup()
+	}
 }
